@@ -22,11 +22,17 @@ Proof.
   destruct (Nat.ltb_spec (t_count (pd_tasks d)) cap) as [Hlt|Hge].
   - destruct (Hpre Hlt) as [Hhd Hnx].
     assert (E255 : (t_head (pd_tasks d) =? 255)%nat = false) by (apply Nat.eqb_neq; lia).
-    destruct (Nat.eqb_spec (t_head (pd_tasks d)) (t_tail (pd_tasks d))) as [Heq|Hne]; cbn [negb] in HR.
-    + destruct (Nat.ltb_spec (t_last (pd_tasks d)) (cap - 1)) as [Hl1|Hl1]; cbv beta iota zeta in HR; rewrite E255 in HR;
-        (destruct (Nat.eqb_spec (first (pd_pl d)) 255) as [Hfe|Hfn]; [|specialize (Hlast Hfn)]); pl_exec'; fin_pl' R.
-    + specialize (Hnx Hne). cbv beta iota zeta in HR; rewrite E255 in HR.
-      destruct (Nat.eqb_spec (first (pd_pl d)) 255) as [Hfe|Hfn]; [|specialize (Hlast Hfn)]; pl_exec'; fin_pl' R.
+    (* the run splits where the code branches (the common prefix is executed once); at each leaf the model's conditions are decided by the facts collected *)
+    pl_exec'.
+    all: repeat match type of HR with
+         | context[if (?a <? ?b)%nat then _ else _] => destruct (Nat.ltb_spec a b); try (exfalso; lia)
+         | context[if negb (?a =? ?b)%nat then _ else _] => destruct (Nat.eqb_spec a b); cbn [negb] in HR; try (exfalso; lia)
+         end.
+    all: cbv beta iota zeta in HR; rewrite E255 in HR.
+    all: repeat match type of HR with
+         | context[if (?a =? ?b)%nat then _ else _] => destruct (Nat.eqb_spec a b); try (exfalso; lia)
+         end.
+    all: fin_pl' R.
   - pl_exec'; fin_pl' R.
 Qed.
 
